@@ -392,6 +392,8 @@ def perturbed_mdp(rng, m):
         for a in m["actions"][s]:
             succ = rng.sample(range(n), rng.randint(1, min(3, n)))
             row = [[ns, str(p)] for ns, p in zip(succ, gen_mdp._split_prob(rng, len(succ)))]
+            if absorbing[s]:
+                row = [[s, "1"]]                          # as in gen_mdp: explicit absorbing states self-loop
             trans["%d,%d" % (s, a)] = row
             for ns, p in row:
                 if rng.random() < .8:
@@ -439,14 +441,21 @@ def finish_case(rng, case):
     if case["policy"]["form"] == "dict":
         case["explicit_lists"] = False                    # from_dict only knows the actions it was given
     case = with_reuse(rng, case)
-    if rng.random() < .18:
+    if rng.random() < .12:
         # a SECOND policy object evaluated on the MDP object that was already used by the first
         p2 = gen_policy(rng, m, rng.random() < .25)
         if p2["form"] == "dict" and case["explicit_lists"]:
             p2["form"] = "tab"
         steps = case.setdefault("reuse", [])
         steps.insert(rng.randint(0, len(steps)), {"other_policy": p2})
-    if case["policy"]["form"] in ("tab", "tab_lists") and rng.random() < .25:
+    if case["policy"]["form"] in ("tab", "tab_lists") and case.get("family") != "decisive-tiny-probability" and rng.random() < .3:
+        # (explicit lists: the policy's action set must equal the action set of every MDP it is evaluated on;
+        #  not for the decisive-tiny family: 1 - 2^-60 is 1.0 in floating point, so on another problem the same
+        #  row can describe an absorption time of 2^60 steps, which no double-precision solve can follow)
+        case["explicit_lists"] = True
+        for st in case.get("reuse", []):
+            if isinstance(st, dict) and "other_policy" in st and st["other_policy"]["form"] == "dict":
+                st["other_policy"]["form"] = "tab"        # from_dict only knows the actions it was given
         # the SAME policy object on a DIFFERENT problem, somewhere in the sequence (results of the first call are
         # re-read at the very end)
         steps = case.setdefault("reuse", [])
@@ -488,9 +497,9 @@ def gen_error_case(rng):
 
 
 def with_reuse(rng, case):
-    """multi-step scenario (35% of cases): the same policy object is evaluated again on 1-2 MDPs with the same
+    """multi-step scenario (25% of cases, more through the other step kinds): the same policy object is evaluated again on 1-2 MDPs with the same
     dynamics but differently ordered state/action lists, and/or once more on the first MDP"""
-    if rng.random() < .35:
+    if rng.random() < .25:
         m = case["mdp"]
         steps = []
         for _ in range(rng.randint(1, 2)):
